@@ -64,6 +64,7 @@ def World.resolve (w : World) (req : OpenReq) : World × Except Errno Nat :=
     ({ w with ofds := w.ofds ++ [⟨req.path, rd, wr, req.args.append, 0⟩] }, .ok w.ofds.length)
   if f.present then
     if req.args.excl then (w, .error .EEXIST)
+    else if f.kind == .dir && (wr || req.args.create || req.args.trunc) then (w, .error .EISDIR)
     else if req.args.trunc && f.kind == .reg then mk (setFile w req.path { f with content := [] })
     else mk w
   else if req.args.create then mk (setFile w req.path ⟨true, .reg, [], false⟩)
